@@ -242,20 +242,20 @@ class SchemaBuilder(
             self.visit_with_conv(field.type, self._field_conversion(field)),
             get_field_schema(tp, field) if tp is not None else field.schema,
         )
-        if (
-            not required
-            and "default" not in result
-            and field.get_default() is not Undefined
-        ):
+        if not required and "default" not in result:
             result = JsonSchema(result)
             with suppress(Exception):
-                result["default"] = serialize(
-                    field.type,
-                    field.get_default(),
-                    fall_back_on_any=False,
-                    check_type=True,
-                    conversion=field.serialization,
-                )
+                # get_default raises for a field without default which is not
+                # required because it can be skipped (e.g. with exclude_none)
+                default = field.get_default()
+                if default is not Undefined:
+                    result["default"] = serialize(
+                        field.type,
+                        default,
+                        fall_back_on_any=False,
+                        check_type=True,
+                        conversion=field.serialization,
+                    )
         return result
 
     def _object_schema(self, cls: type, field: ObjectField) -> JsonSchema:
